@@ -4,10 +4,12 @@
     Conn/Recv.v (bytes_needed_for_current_message, IncomingBuffer::reserve, the receive loop with an explicit
     kernel). Specification: MAX_ARRAY = 2^26, MAX_DEPTH = 64 (Wire/SpecEnc.v), MAX_MESSAGE = 2^27, [vdepth],
     [announced], [len_pos] (Wire/Limits.v). Proofs: Wire/LimitsProofs.v, Wire/LimitsRecv.v.
-    NOT claimed: the typed API counts no nesting (C18_typed_counts_no_nesting states it); for Rust types that
-    contain themselves the nesting is then chosen by the message (known finding D21). *)
+    NOT claimed: the typed API counts no nesting (C18_typed_counts_no_nesting states it): on the receive side the nesting
+    of a value of a Rust type that contains itself is then chosen by the message (known finding D21), on the send side such a
+    value - or one of a type written deeper than 64 - is marshalled although it exceeds the limit (known finding D21s:
+    C18_send_limits_typed holds outside KnownClass_D21s, C18_send_typed_nesting_refuted is the witness inside). *)
 From RB Require Import Base.Prelude Sig.Types Wire.Bytes Wire.Align Wire.Value Wire.SpecEnc Wire.Marshal Wire.Decode Wire.Unmarshal
-  Wire.Relabel Wire.MarshalProofs Wire.Limits Wire.LimitsProofs Wire.LimitsSend Conn.Recv Conn.RecvLists Wire.LimitsRecv.
+  Wire.Relabel Wire.MarshalProofs Wire.DecodeSoundLemmas Wire.Limits Wire.LimitsProofs Wire.LimitsSend Wire.LimitsKnown Conn.Recv Conn.RecvLists Wire.LimitsRecv.
 
 (* decoders, length: when the u32 at the (aligned) length position of an array or dict exceeds 2^26, raw validation,
    the Param decoder and the typed decoder (slice fast path and element loop) all return an error - whatever the
@@ -113,6 +115,37 @@ Theorem C18_send_arrays : forall be v, typed v -> strings_small v = true ->
 Proof. exact send_arrays_within. Qed.
 Print Assumptions C18_send_arrays.
 
+(* THE SEND CLAUSE ("the library refuses to send values that exceed the limits") and its known exception, finding D21s.
+   Param API, complete: whatever the public entry point (marshal_param / push_old_param) accepts is nested at most 64 deep and
+   every array and dict inside it has at most 2^26 bytes of content. *)
+Theorem C18_send_limits_param : forall be v, typed v -> strings_small v = true -> forall c c',
+  marshal_param_top be v c = (c', true) -> snd (relabel v (mfds c)) <= 2 ^ 32 ->
+  vdepth v <= MAX_DEPTH /\ arrays_within be (len (mbuf c)) (fst (relabel v (mfds c))) = true.
+Proof. exact send_limits_param. Qed.
+Print Assumptions C18_send_limits_param.
+
+(* Typed API: the same clause for every value outside the class KnownClass_D21s v := 64 < vdepth v ... *)
+Theorem C18_send_limits_typed : forall be v, KnownClass_D21s v = false -> typed v -> strings_small v = true -> forall c c',
+  marshal_t be v c = (c', true) -> snd (relabel v (mfds c)) <= 2 ^ 32 ->
+  vdepth v <= MAX_DEPTH /\ arrays_within be (len (mbuf c)) (fst (relabel v (mfds c))) = true.
+Proof. exact send_limits_typed. Qed.
+Print Assumptions C18_send_limits_typed.
+
+(* ... a class no value of a Rust type written at most 64 containers deep belongs to ([vfits e v]: v is a value of the Rust
+   type e; [edepth e]: the nesting of the type): only self-referential types, or types deeper than 64, reach it *)
+Theorem C18_send_typed_class : forall e v, vfits e v = true -> edepth e <= MAX_DEPTH -> KnownClass_D21s v = false.
+Proof. exact typed_class_by_type. Qed.
+Print Assumptions C18_send_typed_class.
+
+(* ... and inside the class the clause fails (witness: the value of `enum DRec { Leaf(u8), Node(Vec<DRec>) }` nested 65
+   containers deep): the typed marshaller accepts it, the Param marshaller refuses the same value *)
+Theorem C18_send_typed_nesting_refuted :
+  KnownClass_D21s (drec 32) = true /\ vdepth (drec 32) = 65 /\ typed (drec 32) /\ strings_small (drec 32) = true
+  /\ snd (marshal_t false (drec 32) {| mbuf := []; mfds := 0 |}) = true
+  /\ snd (marshal_param_top false (drec 32) {| mbuf := []; mfds := 0 |}) = false.
+Proof. exact send_typed_nesting_refuted. Qed.
+Print Assumptions C18_send_typed_nesting_refuted.
+
 (* send path, message level: marshal() refuses header + body above 2^27 bytes and otherwise writes the body length
    untruncated; the header field array goes through the same check as every array *)
 Theorem C18_send_message : forall hdr body fields,
@@ -154,6 +187,8 @@ Theorem C18_recv_reserve : forall st q n c r st' q',
 Proof. exact refill_reserves_announced. Qed.
 Print Assumptions C18_recv_reserve.
 
+(* (memory is thus bounded by the announced size the check accepted - at most 2^27, which the protocol allows a message to have -
+   not by the number of bytes received so far: the buffer is zero-filled to the announced size after the first 16 bytes) *)
 (* receive path, memory: whatever bytes the peer writes in whatever pieces, whatever calls the client makes and
    whatever the kernel delivers per recvmsg, the receive buffer never holds more than 2^27 bytes *)
 Theorem C18_recv_memory : forall (D : Type) (decode_fields : header -> list N -> option D) sched st q os,
